@@ -323,6 +323,37 @@ theorem validate_sound_view {d : ArrayData} {u : Bool} (h : validateData d = .ok
         rw [inline_limit_is_12] at this
         exact this
 
+/-- **`check_bounds` as written, for every key width, signedness and EVERY dictionary length**
+(nothing assumes that the dictionary length fits the key type): if the model of the scan accepts,
+every key at a non-null slot of the window is present and satisfies `0 ≤ k ≤ max_value`
+(`max_value = dictLen − 1`). -/
+theorem checkBounds_sound {d : ArrayData} {keys : List Nat} {kw : Nat} {signed : Bool} {dictLen : Nat}
+    (h : checkBounds d keys kw signed dictLen = .ok) :
+    ∀ i, i < d.len → d.isValid i = true →
+      ∃ k : Int, readInt keys kw signed (d.offset + i) = some k ∧ 0 ≤ k ∧ k ≤ (dictLen : Int) - 1 := by
+  unfold checkBounds at h
+  split at h
+  · simp at h
+  rw [errIf_ok] at h
+  simp only [Bool.not_eq_false'] at h
+  rw [allBelow_iff] at h
+  intro i hi hv
+  have := h i hi
+  rw [hv] at this
+  simp only [Bool.not_true, Bool.false_or] at this
+  split at this
+  · rename_i k hk
+    simp only [decide_eq_true_eq] at this
+    exact ⟨k, hk, this.2.1, this.2.2⟩
+  · simp at this
+
+set_option maxRecDepth 8192 in
+/-- a negative key is never accepted, however long the dictionary is: Int8 keys `[-1]` over 129
+dictionary values (more than an `i8` can address) are rejected by the model of `try_new`. -/
+theorem validate_rejects_negative_key_large_dictionary :
+    validateModel ⟨.dict 1 true (.prim 1), 1, 0, none, [[0xff]],
+      [⟨.prim 1, 129, 0, none, [List.replicate 129 0], []⟩]⟩ = .err := by decide
+
 /-- **T-tie**: every source expression whose shape the model (and the counterexample theorems)
 depend on is still written the way the model mirrors it — regenerated from /repo on every run by
 `tools/translate.py` (`tools/items/C09.py`); an edit of one of them makes this theorem fail. -/
@@ -339,6 +370,9 @@ theorem source_shape_ties :
       || ArrowModel.Generated.C09.EACH_OFFSET_SHAPE_lost
       || ArrowModel.Generated.C09.CHECK_BOUNDS_SHAPE_lost
       || ArrowModel.Generated.C09.RUN_ENDS_SHAPE_lost
+      || ArrowModel.Generated.C09.CHECK_BOUNDS_NO_EARLY_RETURN_lost
+      || ArrowModel.Generated.C09.CHECK_BOUNDS_MAX_VALUE_lost
+      || ArrowModel.Generated.C09.DICT_TRY_NEW_SHAPE_lost
       || ArrowModel.Generated.C09.CONTAINS_ZIP_NO_OFFSET_lost
       || ArrowModel.Generated.C09.OFFSET_BUFFER_WINDOWS_lost
       || ArrowModel.Generated.C09.RUN_END_BUFFER_WINDOWS_lost
